@@ -179,7 +179,10 @@ def eval_case(ctx, n, vec, part, rank, svd, family, as_list=False, part_tuple=Fa
     vec = np.asarray(vec, dtype=complex)
     part = [int(p) for p in part]
     bad = []
-    arg_v = [complex(x) for x in vec] if as_list else vec.copy()
+    if as_list == "real":
+        arg_v = np.array(np.real(vec), dtype=float)          # a real-valued vector handed over as float64
+    else:
+        arg_v = [complex(x) for x in vec] if as_list else vec.copy()
     arg_p = tuple(part) if part_tuple else list(part)
     N = 2 ** n
     rows, cols = 2 ** (n - len(part)), 2 ** len(part)
@@ -263,7 +266,7 @@ def eval_case(ctx, n, vec, part, rank, svd, family, as_list=False, part_tuple=Fa
         bad.append(f"raised {type(exc).__name__}: {str(exc)[:120]}")
     if bad:
         case = {"function": "schmidt_decomposition", "n": n, "partition": part, "size": len(part), "rank": int(rank),
-                "svd": svd, "family": family, "as_list": bool(as_list), "part_tuple": bool(part_tuple),
+                "svd": svd, "family": family, "as_list": (as_list if as_list == "real" else bool(as_list)), "part_tuple": bool(part_tuple),
                 "sorted": part == sorted(part), "vector": enc_vec(vec)}
         ctx.violation(f"schmidt_decomposition/composition n={n} partition={part} rank={rank} svd={svd}: " + "; ".join(bad[:3]), case)
         return False
@@ -306,6 +309,8 @@ def evaluate(ctx, deep):
                 for r in ranks:
                     svd = "regular" if rng.random() < 0.3 else "auto"
                     as_list = bool(rng.random() < 0.2)
+                    if not as_list and float(np.abs(np.imag(vec)).max()) == 0.0 and rng.random() < 0.5:
+                        as_list = "real"
                     pt = bool(rng.random() < 0.2)
                     ctx.count(f"{fam}|{order}",
                               key=(n, tuple(p), r, svd, fam, vec.tobytes()), nontrivial=True,
